@@ -424,6 +424,9 @@ func (g *valGen) leaf(lk leafKind, tagged bool) *model.Node {
 	case lIdent:
 		return model.P([]string{"alpha", "x1", "é-ü", "UPPER"}[r.Intn(4)])
 	case lRatio:
+		if tagged {
+			return model.P([]float64{0.25, 0.5, 1}[r.Intn(3)])
+		}
 		return model.P([]float64{0, 0.25, 0.5, 1}[r.Intn(4)])
 	case lLevel:
 		return model.P([]string{"low", "mid", "high"}[r.Intn(3)])
@@ -479,15 +482,16 @@ func (g *valGen) value(s *spec, tagged bool) *model.Node {
 		}
 		return n
 	case kSlice:
+		// the validators of a field are also run on every element of its list
 		n := model.List()
 		for i, c := 0, 1+r.Intn(4); i < c; i++ {
-			n.A = append(n.A, g.value(s.elem, false))
+			n.A = append(n.A, g.value(s.elem, tagged))
 		}
 		return n
 	case kArray:
 		n := model.List()
 		for i := 0; i < s.n; i++ {
-			n.A = append(n.A, g.value(s.elem, false))
+			n.A = append(n.A, g.value(s.elem, tagged))
 		}
 		return n
 	}
@@ -584,6 +588,9 @@ type position struct {
 	inline    bool   // the field belongs to an inlined struct
 	ifaceRoot []seg  // path of the enclosing interface{} slot (nil if none)
 	node      *model.Node
+	tag       string // validators in force: the field's, or inherited by the elements of a tagged list
+	elemTag   bool   // tag is inherited
+	tagHolder int    // length of the path of the struct whose field carries the tag
 }
 
 func (p *position) depthClass() string {
@@ -606,24 +613,21 @@ func (p *position) shape() string {
 	return s
 }
 
-func positions(out *[]*position, n *model.Node, s *spec, path []seg) {
+func positions(out *[]*position, n *model.Node, s *spec, path []seg, tag string, holder int) {
 	switch s.kind {
 	case kStruct:
-		if s.leaf == lSpan {
-			return
-		}
 		structPositions(out, n, s, path, false)
 	case kMap:
 		for _, k := range n.SortedKeys() {
 			p := appendSeg(path, seg{key: k})
 			*out = append(*out, &position{path: p, sp: s.elem, parent: kMap, node: n.D[k]})
-			positions(out, n.D[k], s.elem, p)
+			positions(out, n.D[k], s.elem, p, "", 0)
 		}
 	case kSlice, kArray:
 		for i, c := range n.A {
 			p := appendSeg(path, seg{idx: i, isIdx: true})
-			*out = append(*out, &position{path: p, sp: s.elem, parent: s.kind, node: c})
-			positions(out, c, s.elem, p)
+			*out = append(*out, &position{path: p, sp: s.elem, parent: s.kind, node: c, tag: tag, elemTag: true, tagHolder: holder})
+			positions(out, c, s.elem, p, tag, holder)
 		}
 	case kIface:
 		genericPositions(out, n, path, path)
@@ -637,9 +641,65 @@ func structPositions(out *[]*position, n *model.Node, s *spec, path []seg, inlin
 			continue
 		}
 		p := appendSeg(path, seg{key: f.key})
-		*out = append(*out, &position{path: p, sp: f.sp, fld: f, parent: kStruct, inline: inline, node: n.D[f.key]})
-		positions(out, n.D[f.key], f.sp, p)
+		*out = append(*out, &position{path: p, sp: f.sp, fld: f, parent: kStruct, inline: inline, node: n.D[f.key], tag: f.tag, tagHolder: len(path)})
+		positions(out, n.D[f.key], f.sp, p, f.tag, len(path))
 	}
+}
+
+// failsOnZero: the first setting (relative dotted path) whose validation fails
+// when the whole struct setting is absent, i.e. on zero values; "" if none or
+// if a nested struct makes the order of evaluation a matter of its own.
+func (s *spec) failsOnZero() string {
+	for _, f := range s.fields {
+		if f.inline {
+			if r := f.sp.failsOnZero(); r != "" {
+				return r
+			}
+			if f.sp.hasStructField() {
+				return ""
+			}
+			continue
+		}
+		fs := f.sp
+		if fs.ptr {
+			if hasTag(f.tag, "required") {
+				return f.key
+			}
+			continue
+		}
+		switch fs.kind {
+		case kStruct:
+			return ""
+		case kLeaf:
+			if fs.leaf == lSpan {
+				return ""
+			}
+			num := fs.leaf.number()
+			if hasTag(f.tag, "required") || (hasTag(f.tag, "nonzero") && (num || fs.leaf == lString || fs.leaf == lDuration)) || (hasTag(f.tag, "min") && (num || fs.leaf == lDuration)) ||
+				fs.leaf == lPort || fs.leaf == lIdent {
+				return f.key
+			}
+		case kSlice:
+			if hasTag(f.tag, "required") {
+				return f.key
+			}
+		case kArray:
+			// an absent array is a zero array whose elements are validated too
+			if e := fs.elem; e.kind != kLeaf || e.leaf == lPort || e.leaf == lIdent || e.leaf == lSpan {
+				return ""
+			}
+		}
+	}
+	return ""
+}
+
+func (s *spec) hasStructField() bool {
+	for _, f := range s.fields {
+		if f.sp.kind == kStruct && !f.sp.ptr || f.sp.kind == kLeaf && f.sp.leaf == lSpan {
+			return true
+		}
+	}
+	return false
 }
 
 func genericPositions(out *[]*position, n *model.Node, path, root []seg) {
